@@ -31,7 +31,7 @@ func TestMain(m *testing.M) {
 			"until the accept timeout; the peer hanging up while its connection waits in the accept queue. rapid adds random pairs of faults and the two-swarm layer (stream open / protocol scope "+
 			"refusals, ClosePeer and Swarm.Close racing). After quiescence (all timeouts and the manager's GC tick passed, on virtual time) every scope of both real managers must read zero, both raw "+
 			"ends must have seen Close, a subsequent clean attempt must succeed with a working stream, and the bubble must be able to exit (no goroutine left). "+
-			"Non-trivial = the injected fault actually fired; distinct = (configuration, class, side, k, kind)."+tcprRule+wsRule,
+			"Non-trivial = the injected fault actually fired; distinct = (configuration, class, side, k, kind)."+tcprRule+wsRule+quicRule,
 		tcprAssumption,
 		wsAssumption,
 		"QUIC, WebTransport and WebRTC call sites and the outbound WebSocket dial are not driven (their raw I/O is inside third-party stacks on real sockets)",
